@@ -69,6 +69,10 @@ def events_for_case(o, cid, g, g2, ids, relations=True):
     if s is None:
         return evs
     eer_event(ev, s, o, 1, g)
+    if o["ep"] == 0 and o["en"] == 0:
+        sg = sd.new_group_event(ev, o, g, h=5, seed=cid)          # the subclass, built from unsorted data
+        if sg is not None:
+            eer_event(ev, sg, o, 5, g)
     if not relations:
         return evs
     s2 = sd.new_event(ev, o, g2, h=2)
@@ -81,6 +85,17 @@ def events_for_case(o, cid, g, g2, ids, relations=True):
                     nb_easy_pos=o["ep"], nb_easy_neg=o["en"], score_class=on["sc"], equal_class=on["ec"])
         e["post"] = sd.alpha_obj(s3, sd.inv_map(gn))
         eer_event(ev, s3, on, 3, gn)
+    except Exception as ex:  # noqa
+        e["exc"] = sd.exc_str(ex)
+    # history: new easy-sample counts are assigned to the (already queried) first object
+    ep2, en2 = [(0, 0), (4, 1), (1, 6), (3, 3)][cid % 4]
+    if (ep2, en2) == (o["ep"], o["en"]):
+        ep2 += 2
+    e = ev("SetEasy", h=1, ep=ep2, en=en2, post=dict(sd.EMPTY_POST))
+    try:
+        s.nb_easy_pos, s.nb_easy_neg = ep2, en2
+        e["post"] = sd.alpha_obj(s, sd.inv_map(g))
+        eer_event(ev, s, dict(o, ep=ep2, en=en2), 1, g)
     except Exception as ex:  # noqa
         e["exc"] = sd.exc_str(ex)
     return evs
